@@ -83,7 +83,7 @@ PROPS = {
             [rnd("both", "all", 20000, 80), builds("pq", 6), builds("dpq", 6)]),
     ),
     "C04": dict(
-        theorems=None, drop=["t"],
+        theorems=None, impl_search=pqv_bign.zst_search, drop=["t"],
         gens=tiers(
             [rnd("both", "all", 3000, 60), rnd("both", "iter", 1500, 50), rnd("both", "core", 500, 300, keys=100, prios="wide"),
              builds("pq", 4), builds("dpq", 4), bfs("pq", 3, 2), bfs("dpq", 3, 2)],
@@ -128,7 +128,7 @@ PROPS = {
             [rnd("both", "iter", 40000, 60, exclude=NOT_ITERMUT, boost="itermut:2")]),
     ),
     "C10": dict(
-        theorems=None, mode="faults",
+        theorems=None, mode="faults", impl_search=pqv_bign.hash_fuse_search,
         gens=tiers(
             [rnd("both", "fuse", 3000, 50)],
             [rnd("both", "fuse", 30000, 60)]),
@@ -164,7 +164,7 @@ PROPS = {
             [rnd("both", "bulk", 30000, 80, exclude="serde,deser", boost="eq:6,clone:4"), pygen("eq_twins", 60000)]),
     ),
     "C15": dict(
-        theorems=None, drop=["t"],
+        theorems=None, impl_search=pqv_bign.zst_search, drop=["t"],
         gens=tiers(
             [rnd("both", "bulk", 4000, 50, exclude="retain,retainmut,sortedvec,intovec,append,extend,fromiter,fromvec", boost="serde:6,deser:6"),
              pygen("big_serde", 2)],
